@@ -174,8 +174,15 @@ class ModbusAsciiFramer(ModbusFramer):
             if self.checkFrame():
                 if self._validate_unit_id(unit, single):
                     frame = self.getFrame()
-                    result = self.decoder.decode(frame)
+                    try:
+                        result = self.decoder.decode(frame)
+                    except Exception:
+                        # a frame the decoder cannot take must not stay
+                        # in the buffer
+                        self.advanceFrame()
+                        raise
                     if result is None:
+                        self.advanceFrame()
                         raise ModbusIOException("Unable to decode response")
                     self.populateResult(result)
                     self.advanceFrame()
